@@ -182,4 +182,113 @@ theorem floatArray_decoder (data : Bytes) (hsm : Small data) (hv : Havoc Nat) (s
 /-- non-vacuity: the reference traversal of `[1, 2.5e1 ,-0]` finds three members, and the specification gives 1, 25, -0 -/
 example : (traverseArray "[1, 2.5e1 ,-0]".toUTF8.data.toList).map (fun r => (r.1.length, r.2)) = some (3, 14) := by decide +kernel
 
+/-! ## a field-selective decoder -/
+
+theorem fieldFloatH_WB (key : Bytes) : WB (fieldFloatH key) := by
+  apply WB_of_valueEnd
+  intro hs field v _ hlen he
+  simp only [fieldFloatH] at he ⊢
+  by_cases hk : (field == key) = true
+  · simp only [hk, if_true] at he ⊢
+    right
+    by_cases hc : ((Model.readFloat64 v.toArray).err.isNone && !(Model.readFloat64 v.toArray).panicked) = true
+    · simp only [hc, if_true] at he ⊢
+      simp only [Bool.and_eq_true, Option.isNone_iff_eq_none, Bool.not_eq_true'] at hc
+      obtain ⟨n, hn, hp⟩ := readFloat64_resume v.toArray hc.1 hc.2
+      exact ⟨n, by simpa using hn, hp⟩
+    · simp [hc] at he
+  · left
+    simp [hk]
+
+/-- what the field-selective decoder is specified to return: the correctly rounded value of the last member named `key`
+    (`none` inside: no such member), or nothing when such a member is not a number in range -/
+def specField (data : List UInt8) (key : Bytes) : List Member → Option Nat → Option (Option Nat)
+  | [], acc => some acc
+  | m :: ms, acc =>
+    if m.field.toArray == key then
+      match Spec.readFloat (data.drop m.off) with
+      | none => none
+      | some (x, _) => specField data key ms (some x)
+    else specField data key ms acc
+
+theorem replay_fieldFloatH (data : List UInt8) (key : Bytes) : ∀ (ms : List Member) (acc : Option Nat) (n : Nat),
+    match specField data key ms acc with
+    | some r => replay (fieldFloatH key) data ms acc n = (r, n + ms.length, none)
+    | none => ∃ id, (replay (fieldFloatH key) data ms acc n).2.2 = some id := by
+  intro ms
+  induction ms with
+  | nil => intro acc n; simp [specField, replay]
+  | cons m ms ih =>
+    intro acc n
+    simp only [specField, replay]
+    by_cases hk : (m.field.toArray == key) = true
+    · simp only [hk, if_true]
+      have hm := readFloat64_member (data.drop m.off)
+      cases hr : Spec.readFloat (data.drop m.off) with
+      | none =>
+        rw [hr] at hm
+        simp only [] at hm ⊢
+        simp only [fieldFloatH, hk, if_true, hm, Bool.false_eq_true, if_false]
+        exact ⟨1, rfl⟩
+      | some xn =>
+        obtain ⟨x, k⟩ := xn
+        rw [hr] at hm
+        simp only [] at hm ⊢
+        obtain ⟨h1, h2, h3⟩ := hm
+        have hc : ((Model.readFloat64 (data.drop m.off).toArray).err.isNone && !(Model.readFloat64 (data.drop m.off).toArray).panicked) = true := by
+          simp [h1, h2]
+        simp only [fieldFloatH, hk, if_true, hc, h3]
+        have := ih (some x) (n + 1)
+        revert this
+        cases specField data key ms (some x) with
+        | none => intro this; simpa using this
+        | some r =>
+          intro this
+          simp only [] at this ⊢
+          rw [this]
+          congr 2
+          simp only [List.length_cons]; omega
+    · simp only [hk, Bool.false_eq_true, if_false]
+      simp only [fieldFloatH, hk, Bool.false_eq_true, if_false]
+      have := ih acc (n + 1)
+      revert this
+      cases specField data key ms acc with
+      | none => intro this; simpa using this
+      | some r =>
+        intro this
+        simp only [] at this ⊢
+        rw [this]
+        congr 2
+        simp only [List.length_cons]; omega
+
+/-- **`HandleObjectValues` with the field-selective `ReadFloat64` handler**: for every input whose members the
+    reference traversal finds, the regenerated machine on the Go slice stack returns the correctly rounded value of the
+    last member whose raw name is `key` (nothing if there is none), skips every other member itself and stops behind the
+    object; it ends with the handler's error exactly when such a member is not a number in range -/
+theorem fieldFloat_decoder (key : Bytes) (data : Bytes) (hsm : Small data) (hv : Havoc Nat) (stack : Array Nat) (ms : List Member) (n : Nat)
+    (ht : traverseObject data.toList = some (ms, n)) :
+    match specField data.toList key ms none with
+    | some r =>
+      (runA Gen.HandleObjectValues.machine data (fieldFloatH key) hv stack #[] none).1.kind = .ok ∧
+      (runA Gen.HandleObjectValues.machine data (fieldFloatH key) hv stack #[] none).1.p = (n : Int) ∧
+      (runA Gen.HandleObjectValues.machine data (fieldFloatH key) hv stack #[] none).1.hs = r
+    | none => ∃ id, (runA Gen.HandleObjectValues.machine data (fieldFloatH key) hv stack #[] none).1.kind = .herr id := by
+  have hag := C07.handleObjectValues_spec (fieldFloatH key) (fieldFloatH_WB key) data hsm hv stack none
+  rw [ht] at hag
+  simp only [C07.Agrees] at hag
+  have hrep := replay_fieldFloatH data.toList key ms none 0
+  revert hrep
+  cases specField data.toList key ms none with
+  | some r =>
+    intro hrep
+    simp only [] at hrep ⊢
+    rw [hrep] at hag
+    exact ⟨hag.1, hag.2.1, hag.2.2.1⟩
+  | none =>
+    intro hrep
+    simp only [] at hrep ⊢
+    obtain ⟨id, hid⟩ := hrep
+    rw [hid] at hag
+    exact ⟨id, hag.1⟩
+
 end RJson.C08
